@@ -123,7 +123,7 @@ def analyse_module(path: Path, source: str, *, follow=0):
     F.FunctionAnalyser.analyse = wrapped
     file_outcome = ("ok",)
     try:
-        with rt.capture_stderr():
+        with rt.capture_stderr(), rt.time_limit(120):
             try:
                 with enter_file(path):
                     tree = ast.parse(source)
